@@ -7,6 +7,13 @@ V = os.path.dirname(os.path.dirname(os.path.abspath(__file__)))
 
 # id -> (level, technique, level text, level note, design ref)
 CHECKS = {
+    "C04": ("exploration",
+            "exhaustive lattice enumeration of stored histories against a 60-digit decimal reference of the mixture formula",
+            "Every history of a finite lattice (T<=3/4 iterations, all unequal batch-size tuples, temperatures in every order, evidence values in "
+            "{-1e3..1e3}, log-likelihoods in {-1e6..1e6}, three target temperatures) is built on the real StateManager through its public API and "
+            "compared with a reference written from the formula; permutation invariance over all T! orders and the likelihood-shift law are checked on a fixed stride of them.",
+            "Trusted: Python's decimal arithmetic at 60 digits; floating tolerance 64*eps*magnitude. Values outside the finite alphabets are not explored.",
+            "DESIGN.md §4 C04"),
     "C06": ("model_checking",
             "exhaustive enumeration of the random-offset partition (exact rational breakpoints) per (n,w) lattice point; all m^n multinomial answers",
             "Every cell of the exact partition of the uniform offset u0 and the doubles adjacent to every breakpoint are executed on the real "
